@@ -4,6 +4,7 @@ import Wee.Model.Cbor
 import Wee.Model.Hash
 import Wee.Model.Eval
 import Wee.Model.Search
+import Wee.Spec.Outcome
 /-! Request handlers: for every request line the MODEL answer and the SPEC answer ("-" = no oracle). -/
 namespace Driver
 open Wee
@@ -355,6 +356,65 @@ def handle (line : String) : Out :=
           | .warning => "warn"
         let rootE := out.artifact.tt.find (Wee.hash kt.keys root).toNat
         ⟨joinSp (evs ++ [s!"entries:{out.artifact.tt.entries}/{out.artifact.tt.maxEntries}", s!"root:{entryStr rootE}"]), "-"⟩
+  | "searchseq" =>
+    -- searchseq <seed> <tables> <buckets> <workers|-> <n> {<depth|-> <cancel|-> <fen with _>}*
+    let seed := parts[1]!.toNat!
+    let optNat (t : String) : Option Nat := if t == "-" then Option.none else t.toNat?
+    let tables := parts[2]!.toNat!
+    let buckets := parts[3]!.toNat!
+    let workers := optNat parts[4]!
+    let n := parts[5]!.toNat!
+    let (kt, _) := KeyTable.ofRng (Rng.seedFromU64 seed.toUInt64)
+    let workersOf (d : Nat) : Nat := match workers with
+      | some w => w
+      | Option.none => if d < Gen.singleWorkerBelowDepth then 1 else Gen.defaultMaxThreadCount
+    let init : Search.Artifact := { keys := kt, tt := TT.Access.new tables buckets, history := [] }
+    let (_, outs, bad) := (List.range n).foldl (fun (st : Search.Artifact × List String × Bool) i =>
+      if st.2.2 then st else
+      match parseFenM ((parts[8 + 3 * i]!).replace "_" " ") with
+      | Option.none => (st.1, st.2.1, true)
+      | some root =>
+        let out := Search.iterate root (Rng.seedFromU64 (seed + i).toUInt64) (optNat parts[6 + 3 * i]!) st.1 workersOf (optNat parts[7 + 3 * i]!)
+        match out.panic with
+        | some _ => (st.1, st.2.1, true)
+        | Option.none =>
+          let evs := out.events.map fun e => match e with
+            | .best ev line => s!"best:{ev}:{",".intercalate (line.map fun m => toString m.toNat)}"
+            | .progress d nn => s!"prog:{d}:{nn}"
+            | .warning => "warn"
+          (out.artifact, st.2.1 ++ [joinSp (evs ++ [s!"entries:{out.artifact.tt.entries}/{out.artifact.tt.maxEntries}"])], false)) (init, [], false)
+    if bad then ⟨"panic", "-"⟩ else ⟨" | ".intercalate outs, "-"⟩
+  | "matedist" =>
+    -- matedist <limit> <fen...> (spec only): least odd n ≤ limit such that the side to move forces mate in n plies
+    let limit := parts[1]!.toNat!
+    match parseFenM (rest 2) with
+    | Option.none => ⟨"-", "-"⟩
+    | some s => ⟨"-", match Outcome.mateDistance limit s with | some n => toString n | Option.none => "none"⟩
+  | "matekeep" =>
+    -- matekeep <d> <fen...> (spec only): the first moves that keep a forced mate in d plies, with successor FEN
+    let d := parts[1]!.toNat!
+    match parseFenM (rest 2) with
+    | Option.none => ⟨"-", "-"⟩
+    | some s =>
+      let keep := (legalMoves s).filter fun r => Outcome.lostIn (d - 1) r.2
+      ⟨"-", joinSp (keep.map fun r => s!"{r.1.toNat}:{(writeFen r.2).replace " " "_"}")⟩
+  | "matecheck" =>
+    -- matecheck <eval> <first raw> <fen...> (spec only): a winning terminal evaluation claims a forced
+    -- mate; the ply bonus of the score bounds the distance when it is below 10 plies
+    let ev := parseInt parts[1]!
+    let first := parts[2]!.toNat!.toUInt32
+    match parseFenM (rest 3) with
+    | Option.none => ⟨"-", "-"⟩
+    | some s =>
+      if ev < 10000 then ⟨"-", "noclaim"⟩ else
+      let ply : Nat := if ev > 10000 then (10 - ((ev - 10000) / 100)).toNat else 11
+      if ply > 7 then ⟨"-", "claim-too-deep-for-oracle"⟩ else
+      -- the mate is delivered at ply `ply` (1-based count of half-moves from the root)
+      let n := if ply % 2 == 1 then ply else ply + 1
+      if !Outcome.forcedMate n s then ⟨"-", s!"false-claim:no-forced-mate-within-{n}"⟩ else
+      match (legalMoves s).find? fun r => r.1 == first with
+      | Option.none => ⟨"-", "first-move-illegal"⟩
+      | some r => ⟨"-", if Outcome.lostIn (n - 1) r.2 then "sound" else "first-move-loses-the-mate"⟩
   | "linecheck" =>
     -- linecheck <raw,raw,...> <fen...>  (spec only): is the line legal move by move?
     let raws := (parts[1]!.splitOn ",").filterMap String.toNat?
